@@ -440,6 +440,8 @@ def flat_deps(nd):
     if nd["kind"] != "parser":
         out.extend(nd.get("cls_opt", []))
         out.extend(nd["opt"])
+    # dependencies added later with dr.add_dependency: members of the first at-least-one group, bound last
+    out.extend(nd.get("late_deps", []))
     return out
 
 
@@ -493,7 +495,9 @@ def model(spec, in_graph=None, seeded_values=None, store_skips=False):
             out.append(r)
             continue
         req = list(nd.get("cls_req", [])) + [w for w in nd["written"] if not isinstance(w, list)]
-        groups = [w for w in nd["written"] if isinstance(w, list)]
+        groups = [list(w) for w in nd["written"] if isinstance(w, list)]
+        if nd.get("late_deps") and groups:
+            groups[0] = groups[0] + list(nd["late_deps"])
         mr = [d for d in req if not present.get(d)]
         mg = [g for g in groups if not any(present.get(d) for d in g)]
         if mr or mg:
